@@ -30,34 +30,36 @@ Variables mw_threshold mw_min_len mw_max_len : Z.
 
 Notation lower := (Multiword.lower lower_c).
 
-(* a character on which lower() behaves: one character, same class *)
+Notation L := (map (lower1 lower_c)).
+
+(* the facts about one character the proofs use: lower() is not empty, and
+   the character found in the working string (Detect.lower1) has the class of
+   the original one *)
 Definition goodc (c : N) : Prop :=
-  exists x, lower_c c = [x] /\ isalpha x = isalpha c /\ isdigit x = isdigit c.
+  lower_c c <> [] /\ isalpha (lower1 lower_c c) = isalpha c /\ isdigit (lower1 lower_c c) = isdigit c.
 Definition good (s : str) : Prop := Forall goodc s.
 
-Lemma good_lenp s : good s -> len_preserving lower_c s.
-Proof. apply Forall_impl. intros c (x & -> & _). reflexivity. Qed.
+Lemma good_lowne s : good s -> lowne lower_c s.
+Proof. apply Forall_impl. intros c (H & _). exact H. Qed.
 
 Lemma good_app a b : good (a ++ b) <-> good a /\ good b.
 Proof. apply Forall_app. Qed.
 
-Lemma good_alpha s : good s -> forallb isalpha (lower s) = forallb isalpha s.
+Lemma good_alpha s : good s -> forallb isalpha (L s) = forallb isalpha s.
 Proof.
-  induction 1 as [|c s (x & Ex & Ea & _) _ IH]; [reflexivity|].
-  unfold Multiword.lower in *. simpl. rewrite Ex. simpl. now rewrite Ea, IH.
+  induction 1 as [|c s (_ & Ea & _) _ IH]; [reflexivity|]. simpl. now rewrite Ea, IH.
 Qed.
 
 Lemma good_nalpha s : good s ->
-  forallb (fun c => negb (isalpha c)) (lower s) = forallb (fun c => negb (isalpha c)) s.
+  forallb (fun c => negb (isalpha c)) (L s) = forallb (fun c => negb (isalpha c)) s.
 Proof.
-  induction 1 as [|c s (x & Ex & Ea & _) _ IH]; [reflexivity|].
-  unfold Multiword.lower in *. simpl. rewrite Ex. simpl. now rewrite Ea, IH.
+  induction 1 as [|c s (_ & Ea & _) _ IH]; [reflexivity|]. simpl. now rewrite Ea, IH.
 Qed.
 
 (* a piece of the password matches a section: equal text; a website section
    holds the lower-cased piece *)
 Definition pm (piece : str) (x : section) : Prop :=
-  match snd x with Some LW => lower piece = fst x | _ => piece = fst x end.
+  match snd x with Some LW => L piece = fst x | _ => piece = fst x end.
 
 Lemma pm_unlab piece s : pm piece (s, None) <-> piece = s.
 Proof. reflexivity. Qed.
@@ -163,20 +165,19 @@ Proof.
 Qed.
 
 Lemma alpha_split_ok m s p f : good s ->
-  detect_alpha isalpha isupper lower_c (mwp m) s = DYes p f -> SPLIT good sound s p.
+  detect_alpha isalpha isupper lower_c true (mwp m) s = DYes p f -> SPLIT good sound s p.
 Proof.
   intros Hg H. apply detect_alpha_spec in H.
   2: { intros x b ws. now apply mw_parse_concat. }
-  2: { now apply good_lenp. }
+  2: { now apply good_lowne. }
   destruct H as (l1 & l2 & l3 & pieces & b & -> & Hne & H1 & H2 & H3 & Hmw & Hc & Hpne & -> & ->).
   destruct (good_pieces _ _ _ Hg) as (G1 & G3).
   assert (Hg2 : good l2). { apply good_app in Hg. destruct Hg as (_ & Hg). apply good_app in Hg. tauto. }
-  assert (Hlne : lower l2 <> []).
-  { intros E. apply Hne. apply len_zero. rewrite <- (lower_len lower_c l2) by (now apply good_lenp). now rewrite E. }
+  assert (Hlne : L l2 <> []).
+  { intros E. apply Hne. apply map_eq_nil in E. exact E. }
   destruct (mw_parse_nonempty lower_c mw_threshold mw_min_len mw_max_len min_len_pos m _ _ _ Hlne Hmw) as (_ & Hwne).
   assert (Hpcs : Forall (fun pc => pc <> []) pieces).
   { rewrite Forall_map in Hwne. eapply Forall_impl; [|exact Hwne]. intros pc Hpc ->. now apply Hpc. }
-  assert (Hgp : Forall good pieces) by (apply good_concat; now rewrite Hc).
   assert (Hal : forallb isalpha l2 = true) by (rewrite <- good_alpha; assumption).
   apply shape_split_ok; try assumption.
   - exact pm_unlab.
@@ -201,8 +202,8 @@ Definition det_split_ok {F} (detect : str -> dres F) : Prop :=
   (forall s, good s -> detect s <> DErr) /\
   (forall s p f, good s -> sound (s, None) -> detect s = DYes p f -> SPLIT good sound s p).
 
-Definition email_split_ok : Prop := det_split_ok (detect_email lower_c tlds).
-Definition website_split_ok : Prop := det_split_ok (detect_website isalpha lower_c tlds).
+Definition email_split_ok : Prop := det_split_ok (detect_email lower_c true tlds).
+Definition website_split_ok : Prop := det_split_ok (detect_website isalpha lower_c true tlds).
 
 (* ---- helpers *)
 
@@ -259,7 +260,7 @@ Qed.
 
 (* ---- the pipeline *)
 
-Notation PARSE := (parse isalpha isdigit isupper lower_c kbs fp_words min_run tlds year_prefixes context_strings
+Notation PARSE := (parse isalpha isdigit isupper lower_c true kbs fp_words min_run tlds year_prefixes context_strings
                          mw_threshold mw_min_len mw_max_len).
 
 Theorem parse_ok : kw_split_ok -> email_split_ok -> website_split_ok ->
@@ -271,10 +272,10 @@ Proof.
   destruct (Hkw pw Hg Hne) as (sl0 & walks & -> & Ht0 & Hs0).
   pose proof (tiles_good _ _ Hg Ht0) as Hi0.
   (* e-mail *)
-  destruct (split_driver_tiling _ (detect_email lower_c tlds) false pm pm_unlab good sound Hem_err Hem sl0 Hi0 Hs0)
+  destruct (split_driver_tiling _ (detect_email lower_c true tlds) false pm pm_unlab good sound Hem_err Hem sl0 Hi0 Hs0)
     as (sl1 & f1 & -> & Ht1 & Hs1 & Hi1).
   (* website *)
-  destruct (split_driver_tiling _ (detect_website isalpha lower_c tlds) false pm pm_unlab good sound Hweb_err Hweb sl1 Hi1 Hs1)
+  destruct (split_driver_tiling _ (detect_website isalpha lower_c true tlds) false pm pm_unlab good sound Hweb_err Hweb sl1 Hi1 Hs1)
     as (sl2 & f2 & -> & Ht2 & Hs2 & Hi2).
   (* year *)
   destruct (split_driver_tiling _ (detect_year isdigit year_prefixes) true pm pm_unlab good sound
@@ -287,20 +288,20 @@ Proof.
               (fun s p f Hgs _ D => context_split_ok s p f Hgs D) sl3 Hi3 Hs3)
     as (sl4 & f4 & -> & Ht4 & Hs4 & Hi4).
   (* alpha *)
-  destruct (split_driver_tiling _ (detect_alpha isalpha isupper lower_c (mwparse lower_c mw_threshold mw_min_len mw_max_len m))
+  destruct (split_driver_tiling _ (detect_alpha isalpha isupper lower_c true (mwparse lower_c mw_threshold mw_min_len mw_max_len m))
               false pm pm_unlab good sound
-              (fun s _ => detect_alpha_no_err isalpha isupper lower_c _ s (mwp_total m))
+              (fun s _ => detect_alpha_no_err isalpha isupper lower_c true _ s (mwp_total m))
               (fun s p f Hgs _ D => alpha_split_ok m s p f Hgs D) sl4 Hi4 Hs4)
     as (sl5 & f5 & E5 & Ht5 & Hs5 & Hi5).
   rewrite E5.
   assert (Hna5 : unlab_all nalpha sl5).
   { unfold drive_all in E5. eapply (drive_complete _ _ good nalpha); [| |exact E5|exact Hi4].
     - intros s Hgs D. unfold nalpha. rewrite <- good_nalpha by assumption.
-      eapply detect_alpha_none; [exact D| |].
+      eapply detect_alpha_none; [now apply good_lowne|exact D| |].
       + intros x _. apply mwp_total.
       + intros x b. apply mwp_no_empty.
     - intros s p f Hgs D. destruct (alpha_split_ok m s p f Hgs D) as (_ & _ & Hip & _). split; [assumption|].
-      apply detect_alpha_spec in D; [|intros x b ws; now apply mw_parse_concat|now apply good_lenp].
+      apply detect_alpha_spec in D; [|intros x b ws; now apply mw_parse_concat|now apply good_lowne].
       destruct D as (l1 & l2 & l3 & pieces & b & -> & _ & H1 & _ & _ & _ & _ & Hpne & -> & _).
       destruct l1 as [|c l1].
       + destruct pieces as [|pc ps]; [congruence|]. simpl. eexists _, _. split; [reflexivity|]. simpl. discriminate.
